@@ -28,6 +28,22 @@ def handle (op : String) (j : Json) : Option Json :=
                   | some r => "exit status 0 although the output is incomplete at limit " ++ (getObj r "limit").compress
                   | none => "")),
                ("tags", Json.arr (tags.map Json.str).toArray)])
+  | "cursor.seq" =>
+    -- n lines, the k-th write fails once: every later line is dropped (the sticky error is
+    -- looked at before each write) and Close reports the error
+    let n := getNat j "n"
+    let k := getNat j "fault"
+    let fired := 1 ≤ k && k ≤ n
+    let lines := if fired then k - 1 else n
+    let model := obj [("cls", "ok"), ("closeErr", Json.bool fired), ("lines", Json.num lines)]
+    let impl := getObj j "impl"
+    -- oracle: an error while writing is reported by Close (success only if everything is out)
+    let holds := getStr impl "cls" == "ok" && (!fired || getBool impl "closeErr") &&
+      (getBool impl "closeErr" || getNat impl "lines" == n)
+    some (obj [("model", model), ("holds", Json.bool holds),
+               ("why", Json.str (if holds then "" else "a write error was not reported by Close, or Close reported success with lines missing")),
+               ("tags", Json.arr #[Json.str (if fired then "cursor:fault" else "cursor:clean"),
+                                   Json.str (if getBool j "printf" then "cursor:printf" else "cursor:println")])])
   | _ => none
 
 end Lc.Driver.C10Stage
